@@ -942,7 +942,7 @@ pub mod monitor {
         MAXIMA.with(|m| m.borrow().iter().map(|(k, v)| (*k, v.0, v.1)).collect())
     }
 
-    fn note(name: &'static str, excess: f64, bound: f64, what: &str) {
+    fn note(name: &'static str, excess: f64, violated: bool, bound: f64, what: &str) {
         MAXIMA.with(|m| {
             let mut m = m.borrow_mut();
             let e = m.entry(name).or_insert((f64::MIN, 0));
@@ -951,9 +951,9 @@ pub mod monitor {
             }
             e.1 += 1;
         });
-        if excess >= bound && ENFORCE.with(|e| e.get()) {
+        if violated && ENFORCE.with(|e| e.get()) {
             panic!(
-                "verif monitor: {} entered with lane excess b = {:.4}, documented pre-condition b < {} ({})",
+                "verif monitor: {} entered with lane excess b = {:.6}, documented pre-condition b < {} ({})",
                 name, excess, bound, what
             );
         }
@@ -961,29 +961,40 @@ pub mod monitor {
 
     pub(crate) fn avx2(name: &'static str, v: &[crate::backend::vector::packed_simd::u32x8; 5], bound: f64) {
         // lanes of vector i: [a_2i, b_2i, a_2i+1, b_2i+1, c_2i, d_2i, c_2i+1, d_2i+1]
+        // "bounded with b" means limb < 2^(w + b): compared exactly, the logarithm is only reported
+        let lim_even = (67108864.0f64) * libm_exp2(bound);
+        let lim_odd = (33554432.0f64) * libm_exp2(bound);
         let mut worst = f64::MIN;
+        let mut violated = false;
         for x in v.iter() {
             let l: [u32; 8] = unsafe { core::mem::transmute_copy(x) };
             for (k, limb) in l.iter().enumerate() {
                 if *limb != 0 {
-                    let w = if (k / 2) % 2 == 0 { 26.0 } else { 25.0 };
-                    let e = libm_log2(*limb as f64 + 1.0) - w;
+                    let even = (k / 2) % 2 == 0;
+                    if (*limb as f64) >= if even { lim_even } else { lim_odd } {
+                        violated = true;
+                    }
+                    let e = libm_log2(*limb as f64 + 1.0) - if even { 26.0 } else { 25.0 };
                     if e > worst {
                         worst = e;
                     }
                 }
             }
         }
-        note(name, worst, bound, "radix 2^25.5 limbs");
+        note(name, worst, violated, bound, "radix 2^25.5 limbs");
     }
 
     #[cfg(all(curve25519_dalek_backend = "unstable_avx512", nightly))]
     pub(crate) fn ifma(name: &'static str, v: &[crate::backend::vector::packed_simd::u64x4; 5], bits: u32) {
         let mut worst = f64::MIN;
+        let mut violated = false;
         for x in v.iter() {
             let l: [u64; 4] = unsafe { core::mem::transmute_copy(x) };
             for limb in l.iter() {
                 if *limb != 0 {
+                    if (*limb >> bits) != 0 {
+                        violated = true;
+                    }
                     let e = libm_log2(*limb as f64 + 1.0);
                     if e > worst {
                         worst = e;
@@ -992,7 +1003,11 @@ pub mod monitor {
             }
         }
         // "excess" here is the bit length; the bound is the number of bits the kernel may use
-        note(name, worst, bits as f64 + 1e-9, "limb bit length");
+        note(name, worst, violated, bits as f64, "limb bit length");
+    }
+
+    fn libm_exp2(x: f64) -> f64 {
+        x.exp2()
     }
 
     fn libm_log2(x: f64) -> f64 {
